@@ -502,7 +502,8 @@ def rule_e(ctx):
     p = c.params[1]
     rets = [norm(expand(c.node, r.value)) for r in ast.walk(c.node) if isinstance(r, ast.Return) and r.value is not None]
     ctx.ob(R, c.qname, "result = type(image)(corrected array, **destination metadata), input not overwritten",
-           rets == [f"type({p})(self.affine_correction({p}, overwrite=False).img, **self.correct_metadata({p}))"], str(rets), c.node)
+           rets == [f"type({p})(self.affine_correction({p}, overwrite=False).img, **self.correct_metadata({p}))"], str(rets), c.node,
+           evidence=any(f"({p}, overwrite=True)" in r_ or f"({p}, True)" in r_ for r_ in rets))  # the caller's image is handed over to be overwritten
     g = m.func(GEN, "GeneralizedPerspectiveCorrection.correct_metadata")
     rets = [r.value for r in ast.walk(g.node) if isinstance(r, ast.Return)]
     d = {k.value: norm(v) for k, v in zip(rets[0].keys, rets[0].values)} if rets and isinstance(rets[0], ast.Dict) else {}
